@@ -408,8 +408,11 @@ package tq
 // for, exactly those whose object file exists with the recorded size are
 // handed to the adapter; every other one yields an error result (missing or
 // corrupt), so none is silently dropped.
+// C18: ... so what is put and then verified is an object whose local file has
+// exactly the size the batch response named - a response that names another
+// size than the caller did meets a "corrupt object" error, no request.
 //@ func (*TransferQueue).partitionTransfers
-//@   props C03
+//@   props C03 C18
 //@   requires @inv q != nil && forall_int(i, transfers[i], 0 <= i && i < len(transfers) ==> transfers[i] != nil)
 //@   loop 1 iter (len(present) - iter(len(present))) + (len(results) - iter(len(results))) == 1
 //@   loop 1 iter len(present) >= iter(len(present)) && len(results) >= iter(len(results))
@@ -460,6 +463,7 @@ package tq
 //@   at call http.NewRequest:1 assert action != nil && arg0__ == "POST" && arg1__ == action.Href
 //@   loop 2 iter has(req.Header, str_canon(key)) && req.Header[str_canon(key)][0] == value
 //@   at call (*lfsapi.Client).LogRequest:1 assert arg1__.Method == "POST" && arg1__.URL == url_parsed(action.Href) && has(arg1__.Header, "Accept") && has(arg1__.Header, "Content-Type")
+//@   at loop 1 entry assert @C03 mv >= 1
 //@   loop 2 invariant req != nil && req.Header != nil && has(req.Header, "Accept") && has(req.Header, "Content-Type") && req.Method == "POST" && req.URL == url_parsed(action.Href)
 //@ func github.com/git-lfs/git-lfs/v3/lfsapi.MarshalToRequest
 //@   assumed
